@@ -1258,6 +1258,19 @@ class Interp:
         if base.al and out is not base and not out.has_const() and any(o != "param" for (o, _a) in base.al) and self._is_partial_index(idx):
             # a proper part (some rows / columns) of a state array: pseudo-dependence that travels with the value (REPR-4)
             out = out.copy(deps=out.deps | {("subset", a_) for (o_, a_) in base.al if o_ != "param"})
+        if out is not base and not out.has_const() and base.kind in ("arr", "unknown"):
+            # x[:-1] / x[1:] along the first axis: head and tail of an open chain (consecutive pairs without the wrap-around)
+            first = idx.items[0] if (idx.kind == "indextuple" and idx.items) else idx
+            if first.kind == "slice" and first.extra is not None and first.extra.step is None:
+                lo_, hi_ = first.extra.lower, first.extra.upper
+                try:
+                    lo_v = ast.literal_eval(lo_) if lo_ is not None else None
+                    hi_v = ast.literal_eval(hi_) if hi_ is not None else None
+                except Exception:
+                    lo_v = hi_v = "?"
+                which = "head" if (lo_v is None and hi_v == -1) else ("tail" if (lo_v == 1 and hi_v is None) else None)
+                if which:
+                    out = out.copy(tags=out.tags | {("chain", self.val_id(base), which)})
         if "hull" in base.tags and out is not base and not out.has_const() and "hull" not in out.tags:
             out = out.copy(tags=out.tags | {"hull"})        # rows / slices of qhull's own output keep that provenance
         if out is not base and getattr(out, "tr", None) is None and base.kind in ("arr", "unknown", "idx", "float") and not out.has_const():
@@ -1503,12 +1516,20 @@ class Interp:
         bt = batch_tag(l, r)
         if bt and out.kind not in ("str",):
             out.tags = out.tags | bt
+        if isinstance(op, (ast.Mult, ast.Sub)):
+            ch_l = {(t[1], t[2]) for t in l.tags if isinstance(t, tuple) and t and t[0] == "chain"}
+            ch_r = {(t[1], t[2]) for t in r.tags if isinstance(t, tuple) and t and t[0] == "chain"}
+            if any((i_, "tail" if w_ == "head" else "head") in ch_r for (i_, w_) in ch_l):
+                out.tags = out.tags | {("ret", "<open-chain>")}      # pairs (x_i, x_{i+1}) for i < N-1 only
         if isinstance(op, ast.Mult) and isinstance(node, ast.BinOp) and ast.dump(node.left) == ast.dump(node.right) and out.kind in ("arr", "unknown"):
             out.tags = out.tags | {"square-of"}
         if isinstance(op, ast.Pow) and r.is_number_const() and r.const == 2 and out.kind in ("arr", "unknown"):
             out.tags = out.tags | {"square-of"}
         if l.kind == "set" or r.kind == "set":
             out.tags = out.tags | ret_tags(l, r)        # set algebra keeps the provenance of its operands
+        oc = {t for t in (l.tags | r.tags) if t == ("ret", "<open-chain>")}
+        if oc and out.kind in ("arr", "unknown", "float"):
+            out.tags = out.tags | oc
         if isinstance(op, ast.Sub):
             # x_{i+1} - x_i over the rows in the order given: a comparison of *consecutive* rows only
             for a_, b_ in ((l, r), (r, l)):
